@@ -35,6 +35,11 @@ def ensure_deps():
     if r.returncode != 0 or not os.path.exists(marker):
         print("setup: could not install icontract from the offline wheelhouse:\n" + r.stdout + r.stderr)
         return False
+    # the directory did not exist when this interpreter started: forget the negative finder cache
+    sys.path_importer_cache.pop(util.DEPS, None)
+    importlib.invalidate_caches()
+    if util.DEPS not in sys.path:
+        sys.path.append(util.DEPS)
     return True
 
 
@@ -293,4 +298,10 @@ def main(argv):
 
 
 if __name__ == "__main__":
-    sys.exit(main(sys.argv[1:]))
+    try:
+        rc = main(sys.argv[1:])
+    except Exception:  # noqa: BLE001 - a crash of the supervisor is never a verdict on gaftools
+        import traceback
+        print("INCONCLUSIVE property=%s supervisor crashed:\n%s" % (sys.argv[1] if len(sys.argv) > 1 else "?", traceback.format_exc()))
+        rc = 2
+    sys.exit(rc)
